@@ -151,4 +151,263 @@ example : tqConsume [(1, ["a", "b"]), (2, ["c"]), (9, ["d"])] 5 2 = (["a", "b"],
 example : tqConsume [(1, ["a", "b", "x"]), (2, ["c"])] 5 2 = (["a", "b"], [(1, ["x"]), (2, ["c"])]) := by decide
 example : edgeOK .initialized .launched = true ∧ edgeOK .launched .registered = false := by decide
 
+/-! ### "scheduled exactly once": how the time-queue operations change the number of entries of a consumer
+    (used for the launch, removal and infraction-parameter schedules alike) -/
+
+section Queue
+
+theorem countIn_nil (c : CId) : countIn [] c = 0 := rfl
+
+theorem countIn_cons (e : Time × List CId) (q : TimeQueue) (c : CId) :
+    countIn (e :: q) c = (e.2.filter (· == c)).length + countIn q c := by
+  simp [countIn, flatQ, List.flatMap_cons, List.filter_append]
+
+theorem countIn_append (a b : TimeQueue) (c : CId) : countIn (a ++ b) c = countIn a c + countIn b c := by
+  induction a with
+  | nil => simp [countIn_nil]
+  | cons e a ih => rw [List.cons_append, countIn_cons, countIn_cons, ih]; omega
+
+/-- splitting a queue at a time that does not occur in it loses nothing -/
+theorem countIn_split (q : TimeQueue) (t : Time) (c : CId) (h : q.any (·.1 == t) = false) :
+    countIn (q.filter (fun e => decide (e.1 < t))) c + countIn (q.filter (fun e => decide (t < e.1))) c = countIn q c := by
+  induction q with
+  | nil => rfl
+  | cons e q ih =>
+    have hq : q.any (·.1 == t) = false := by
+      simp only [List.any_cons, Bool.or_eq_false_iff] at h; exact h.2
+    have he : e.1 ≠ t := by
+      simp only [List.any_cons, Bool.or_eq_false_iff, beq_eq_false_iff_ne] at h; exact h.1
+    have := ih hq
+    by_cases hlt : e.1 < t
+    · have h2 : ¬ (t < e.1) := Int.not_lt.mpr (Int.le_of_lt hlt)
+      rw [List.filter_cons_of_pos (p := fun (e : Time × List CId) => decide (e.1 < t)) (by simpa using hlt),
+          List.filter_cons_of_neg (p := fun (e : Time × List CId) => decide (t < e.1)) (by simpa using h2), countIn_cons, countIn_cons]
+      rw [← this]; simp only [Nat.add_assoc]
+    · have h2 : t < e.1 := by have h3 := Int.not_lt.mp hlt; have h4 : t ≠ e.1 := Ne.symm he; exact Int.lt_iff_le_and_ne.mpr ⟨h3, h4⟩
+      rw [List.filter_cons_of_neg (p := fun (e : Time × List CId) => decide (e.1 < t)) (by simpa using hlt),
+          List.filter_cons_of_pos (p := fun (e : Time × List CId) => decide (t < e.1)) (by simpa using h2), countIn_cons, countIn_cons]
+      rw [← this]; simp only [Nat.add_assoc, Nat.add_left_comm]
+
+theorem sortedQ_cons (e : Time × List CId) (q : TimeQueue) (h : sortedQ (e :: q) = true) :
+    (∀ f ∈ q, e.1 < f.1) ∧ sortedQ q = true := by
+  simp only [sortedQ, Bool.and_eq_true, List.all_eq_true, decide_eq_true_eq] at h
+  exact h
+
+theorem count_singleton (c c' : CId) : ([c].filter (· == c')).length = if c' = c then 1 else 0 := by
+  by_cases h : c' = c
+  · subst h; simp
+  · have : (c == c') = false := by simp; exact fun e => h e.symm
+    simp [this, h]
+
+/-- appending to the entries of time `t` (there is at most one in a sorted queue) -/
+theorem countIn_map_append (q : TimeQueue) (t : Time) (c c' : CId) (hs : sortedQ q = true)
+    (h : q.any (·.1 == t) = true) :
+    countIn (q.map fun e => if e.1 == t then (e.1, e.2 ++ [c]) else e) c' = countIn q c' + (if c' = c then 1 else 0) := by
+  induction q with
+  | nil => simp at h
+  | cons e q ih =>
+    obtain ⟨hlt, hsq⟩ := sortedQ_cons e q hs
+    rw [List.map_cons, countIn_cons, countIn_cons]
+    by_cases he : (e.1 == t) = true
+    · -- no later entry has time t
+      have hnone : q.any (·.1 == t) = false := by
+        rw [Bool.eq_false_iff]; intro hq
+        rcases List.any_eq_true.mp hq with ⟨f, hf, hft⟩
+        have hl := hlt f hf
+        have e1 : e.1 = t := by simpa using he
+        have e2 : f.1 = t := by simpa using hft
+        rw [e1, e2] at hl
+        exact absurd hl (Int.lt_irrefl _)
+      have hsame : (q.map fun e => if e.1 == t then (e.1, e.2 ++ [c]) else e) = q := by
+        have : (q.map fun e => if e.1 == t then (e.1, e.2 ++ [c]) else e) = q.map id := by
+          apply List.map_congr_left
+          intro f hf
+          have : (f.1 == t) = false := by
+            rw [Bool.eq_false_iff]; intro hft; rw [Bool.eq_false_iff] at hnone
+            exact hnone (List.any_eq_true.mpr ⟨f, hf, hft⟩)
+          simp [this]
+        rw [this, List.map_id]
+      rw [hsame]
+      simp only [he, if_true, List.filter_append, List.length_append, count_singleton]
+      omega
+    · have hq : q.any (·.1 == t) = true := by
+        simp only [List.any_cons, Bool.or_eq_true] at h
+        rcases h with h | h
+        · exact absurd h he
+        · exact h
+      have := ih hsq hq
+      simp only [he, Bool.false_eq_true, if_false]
+      omega
+
+/-- SCHEDULED ONCE MORE: appending `c` raises its count by exactly one and nobody else's -/
+theorem countIn_tqAppend (q : TimeQueue) (t : Time) (c c' : CId) (hs : sortedQ q = true) :
+    countIn (tqAppend q t c) c' = countIn q c' + (if c' = c then 1 else 0) := by
+  unfold tqAppend
+  by_cases h : q.any (·.1 == t) = true
+  · simp only [h, if_true]
+    exact countIn_map_append q t c c' hs h
+  · have hf : q.any (·.1 == t) = false := (Bool.not_eq_true _).mp h
+    simp only [h, Bool.false_eq_true, if_false]
+    rw [countIn_append, countIn_append, countIn_cons, countIn_nil]
+    have := countIn_split q t c' hf
+    simp only [count_singleton]
+    omega
+
+theorem filter_len_eq_count (l : List CId) (c : CId) : (l.filter (· == c)).length = l.count c := by
+  rw [List.count_eq_countP, List.countP_eq_length_filter]
+
+theorem count_erase' (l : List CId) (c c' : CId) (h : c ∈ l) :
+    (l.erase c).count c' + (if c' = c then 1 else 0) = l.count c' := by
+  by_cases hc : c' = c
+  · subst hc
+    simp only [if_true, List.count_erase_self]
+    have := List.count_pos_iff.mpr h
+    omega
+  · simp only [hc, if_false, Nat.add_zero]
+    exact List.count_erase_of_ne hc
+
+/-- removing `c` from the (unique) entry of time `t` -/
+theorem countIn_map_erase (q : TimeQueue) (t : Time) (c c' : CId) (e : Time × List CId) (hs : sortedQ q = true)
+    (hf : q.find? (·.1 == t) = some e) (hc : c ∈ e.2) :
+    countIn (q.map fun x => if x.1 == t then (x.1, x.2.erase c) else x) c' + (if c' = c then 1 else 0) = countIn q c' := by
+  induction q with
+  | nil => simp at hf
+  | cons x q ih =>
+    obtain ⟨hlt, hsq⟩ := sortedQ_cons x q hs
+    rw [List.map_cons, countIn_cons, countIn_cons]
+    by_cases hx : (x.1 == t) = true
+    · have hxe : x = e := by
+        simp only [List.find?_cons, hx] at hf; injection hf
+      subst hxe
+      have hnone : ∀ f ∈ q, (f.1 == t) = false := by
+        intro f hf'
+        rw [Bool.eq_false_iff]; intro hft
+        have hl := hlt f hf'
+        have e1 : x.1 = t := by simpa using hx
+        have e2 : f.1 = t := by simpa using hft
+        rw [e1, e2] at hl
+        exact absurd hl (Int.lt_irrefl _)
+      have hsame : (q.map fun y => if y.1 == t then (y.1, y.2.erase c) else y) = q := by
+        have : (q.map fun y => if y.1 == t then (y.1, y.2.erase c) else y) = q.map id := by
+          apply List.map_congr_left
+          intro f hf'; simp [hnone f hf']
+        rw [this, List.map_id]
+      rw [hsame]
+      simp only [hx, if_true, filter_len_eq_count]
+      have := count_erase' x.2 c c' hc
+      omega
+    · have hq : q.find? (·.1 == t) = some e := by
+        simp only [List.find?_cons, hx] at hf; exact hf
+      have := ih hsq hq
+      simp only [hx, Bool.false_eq_true, if_false]
+      omega
+
+/-- dropping the (unique) entry of time `t`, which holds exactly `[c]` -/
+theorem countIn_filter_drop (q : TimeQueue) (t : Time) (c c' : CId) (e : Time × List CId) (hs : sortedQ q = true)
+    (hf : q.find? (·.1 == t) = some e) (he : e.2 = [c]) :
+    countIn (q.filter fun x => x.1 != t) c' + (if c' = c then 1 else 0) = countIn q c' := by
+  induction q with
+  | nil => simp at hf
+  | cons x q ih =>
+    obtain ⟨hlt, hsq⟩ := sortedQ_cons x q hs
+    by_cases hx : (x.1 == t) = true
+    · have hxe : x = e := by
+        simp only [List.find?_cons, hx] at hf; injection hf
+      subst hxe
+      have hkeep : q.filter (fun y => y.1 != t) = q := by
+        apply List.filter_eq_self.mpr
+        intro f hf'
+        have hl := hlt f hf'
+        have e1 : x.1 = t := by simpa using hx
+        simp only [bne_iff_ne, ne_eq]
+        intro e2; rw [e1, e2] at hl; exact absurd hl (Int.lt_irrefl _)
+      have hxn : ¬ ((x.1 != t) = true) := by
+        have e1 : x.1 = t := by simpa using hx
+        simp [e1]
+      rw [List.filter_cons_of_neg (p := fun (y : Time × List CId) => y.1 != t) hxn, hkeep, countIn_cons, he, count_singleton]
+      omega
+    · have hq : q.find? (·.1 == t) = some e := by
+        simp only [List.find?_cons, hx] at hf; exact hf
+      have := ih hsq hq
+      have hxp : (x.1 != t) = true := by
+        have e1 : ¬ x.1 = t := by simpa using hx
+        simp [e1]
+      rw [List.filter_cons_of_pos (p := fun (y : Time × List CId) => y.1 != t) hxp, countIn_cons, countIn_cons]
+      omega
+
+/-- SCHEDULED ONCE LESS: a successful removal lowers the count of `c` by exactly one, nobody else's -/
+theorem countIn_tqRemove (q q' : TimeQueue) (t : Time) (c c' : CId) (hs : sortedQ q = true)
+    (h : tqRemove q t c = some q') :
+    countIn q' c' + (if c' = c then 1 else 0) = countIn q c' := by
+  unfold tqRemove at h
+  cases hf : q.find? (·.1 == t) with
+  | none => simp [hf] at h
+  | some e =>
+    simp only [hf] at h
+    by_cases hc : e.2.contains c = true
+    · simp only [hc, Bool.not_true, Bool.false_eq_true, if_false] at h
+      have hmem : c ∈ e.2 := by simpa using hc
+      by_cases hl : (e.2.length == 1) = true
+      · simp only [hl, if_true, Option.some.injEq] at h
+        subst h
+        have he : e.2 = [c] := by
+          have hl' : e.2.length = 1 := by simpa using hl
+          match hh : e.2, hl', hmem with
+          | [x], _, hm => simp at hm; rw [hm]
+        exact countIn_filter_drop q t c c' e hs hf he
+      · simp only [hl, Bool.false_eq_true, if_false, Option.some.injEq] at h
+        subst h
+        exact countIn_map_erase q t c c' e hs hf hmem
+    · have hcf : e.2.contains c = false := (Bool.not_eq_true _).mp hc
+      simp only [hcf, Bool.not_false, if_true] at h
+      cases h
+
+theorem sortedQ_filter (q : TimeQueue) (p : Time × List CId → Bool) (hs : sortedQ q = true) : sortedQ (q.filter p) = true := by
+  induction q with
+  | nil => rfl
+  | cons x q ih =>
+    obtain ⟨hlt, hsq⟩ := sortedQ_cons x q hs
+    rw [List.filter_cons]
+    split
+    · simp only [sortedQ, Bool.and_eq_true, List.all_eq_true, decide_eq_true_eq]
+      exact ⟨fun f hf => hlt f (List.mem_filter.mp hf).1, ih hsq⟩
+    · exact ih hsq
+
+theorem sortedQ_map_snd (q : TimeQueue) (g : Time × List CId → Time × List CId) (hg : ∀ x, (g x).1 = x.1)
+    (hs : sortedQ q = true) : sortedQ (q.map g) = true := by
+  induction q with
+  | nil => rfl
+  | cons x q ih =>
+    obtain ⟨hlt, hsq⟩ := sortedQ_cons x q hs
+    simp only [List.map_cons, sortedQ, Bool.and_eq_true, List.all_eq_true, decide_eq_true_eq]
+    refine ⟨?_, ih hsq⟩
+    intro f hf
+    rcases List.mem_map.mp hf with ⟨f0, hf0, rfl⟩
+    rw [hg, hg]; exact hlt f0 hf0
+
+theorem sortedQ_tqRemove (q q' : TimeQueue) (t : Time) (c : CId) (hs : sortedQ q = true)
+    (h : tqRemove q t c = some q') : sortedQ q' = true := by
+  unfold tqRemove at h
+  cases hf : q.find? (·.1 == t) with
+  | none => simp [hf] at h
+  | some e =>
+    simp only [hf] at h
+    split at h
+    · cases h
+    · split at h
+      · injection h with h; subst h; exact sortedQ_filter q _ hs
+      · injection h with h; subst h
+        exact sortedQ_map_snd q _ (by intro x; split <;> rfl) hs
+
+/-- RE-SCHEDULING KEEPS "EXACTLY ONCE": moving `c` from time `t` to time `t'` (MsgUpdateConsumer with a
+    new spawn time; a changed infraction-parameter request) leaves every consumer's number of
+    schedule entries as it was -/
+theorem reschedule_keeps_counts (q q1 : TimeQueue) (t t' : Time) (c c' : CId) (hs : sortedQ q = true)
+    (h : tqRemove q t c = some q1) : countIn (tqAppend q1 t' c) c' = countIn q c' := by
+  have h1 := countIn_tqRemove q q1 t c c' hs h
+  have h2 := countIn_tqAppend q1 t' c c' (sortedQ_tqRemove q q1 t c hs h)
+  omega
+
+end Queue
+
 end ICS.Props.C10
